@@ -50,7 +50,8 @@ PROPS = {
     },
     "C03": {
         "profile": "all", "n_quick": 4, "n_thorough": 30, "nops": 18, "nlists": 3, "cfgs": SIX,
-        "corpus": ["fork_auto_region", "fork_partial_none", "fork_partial_always", "explicit_completion"],
+        "corpus": ["fork_auto_region", "fork_partial_none", "fork_partial_always", "explicit_completion",
+                   "root_history_restart_always", "root_history_restart_shallow"],
         "monitor": M.mon_C03, "check_ids": True, "extra_flags": ("-DH_INTROSPECT",),
         "relevant": M.relevant_by(M.proj({"N", "X", "MN", "MX"}, keep_snap=True)),
         "rule": "machines with completion, deferral, history and blocking states; after every operation the reported "
@@ -165,7 +166,7 @@ PROPS = {
         "ops": lambda g, md, n: g.gen_ops_copy(md, n, mode="move" if g.rng.random() < 0.5 else "copy"),
         "ops_cfg": True, "extra_flags": ("-DH_OBJDATA",),
         "corpus": ["copyhist_none", "copyhist_always", "copyhist_shallow", "assignhist_none", "assignhist_always",
-                   "assignhist_shallow", "movehist_always", "movehist_shallow"],
+                   "assignhist_shallow", "movehist_always", "movehist_shallow", "copy_pool_counter"],
         "monitor": M.mon_C15,
         "relevant": M.relevant_by(M.proj(M.ALL, keep_res=True, keep_snap=True, keep_ev=True)),
         "rule": "nested machines (history, deferral, completion, exit points); object 0 is driven, copied / assigned (and "
